@@ -151,6 +151,35 @@ let judge cmd args got : verdict =
     let (k, rest) = cell_of w in
     let m = zmat_of (List.map int_of_string rest) in
     tolerant [ (0., List.map (fl k) (s6l (changed_basis_backward_metric k.o k.c m))) ]
+  | "walk" ->
+    (* got = nu nv nw cu cv cw k pbc ku kv kw ratio_u ratio_v ratio_w : (idx du dv dw)*  *)
+    (match String.split_on_char ':' got with
+     | [hd; tl] ->
+       (match words hd with
+        | [nu; nv; nw; cu; cv; cw; k; pbc; ku; kv; kw; ru; rv; rw] ->
+          let i s = zi (int_of_string s) in
+          (* bins_to_visit on the exact value of the double ratio, away from rounding boundaries *)
+          let q_of_float f =
+            let (m, e) = frexp f in
+            let mi = Int64.to_int (Int64.of_float (ldexp m 53)) in
+            let rec pow2 n = if n = 0 then XH else XO (pow2 (n - 1)) in
+            if e - 53 >= 0 then { qnum = zi (mi * (1 lsl (e - 53))); qden = XH }
+            else qred { qnum = zi mi; qden = pow2 (53 - e) } in
+          let chk_k ks rs =
+            let r = float_of_string rs in
+            let kr = float_of_string k *. r in
+            if abs_float (r -. 1.000000001) < 1e-12 || (r > 1. && abs_float (kr -. Float.round kr) < 1e-9 *. kr)
+            then true
+            else int_of_z (bins_to_visit (i k) (q_of_float r)) = int_of_string ks in
+          if not (chk_k ku ru && chk_k kv rv && chk_k kw rw) then Differ "bins_to_visit differs from the model"
+          else
+            let f = if pbc = "1" then walk else walk_clamped in
+            let l = f (i nu) (i nv) (i nw) (i cu) (i cv) (i cw) (i ku) (i kv) (i kw) in
+            let s = String.concat " " (List.map (fun (idx, ((du, dv), dw)) ->
+                      Printf.sprintf "%d %d %d %d" (iz idx) (iz du) (iz dv) (iz dw)) l) in
+            if words s = words tl then Same else Differ (hd ^ ": " ^ s)
+        | _ -> Differ "format")
+     | _ -> Differ "format")
   | _ -> NoPrediction
 
 let () =
